@@ -49,6 +49,8 @@ type AOutcome struct {
 	HeapLate   uint64
 }
 
+var blowupPatterns = []string{`a[ab]{12}[cd]`, `[cd][ab]{10}a[ab]*x`, `ab[ab]{20}c`, `(a|b)*a(a|b){9}`, `[01]*1[01]{11}`, `[ab]*a[ab]{13}c`, `([ab]*)a[ab]{3}c`}
+
 type zeroAPI struct {
 	name string
 	fn   func(re *coregex.Regex, b []byte, s string, buf *[][2]int)
@@ -94,11 +96,22 @@ func genAlloc(seed uint64, index int, tier string) *AScenario {
 			sc.Knobs.DFACap = pick(kr, []int{20000, 65536, 65536, 262144})
 		}
 	}
+	// one run in eight is a state blow-up pattern on long inputs over its own
+	// alphabet: hundreds of DFA states in a warm cache, the regime in which
+	// "warm state is kept between calls" is a non-trivial claim
+	blow := pr.p(1, 8)
+	if blow {
+		sc.Pattern = pick(pr, blowupPatterns)
+	}
 	re := parsePattern(sc.Pattern)
 	alpha := patternAlphabet(sc.Pattern)
 	hr := r.fork(3)
 	nh := hr.between(1, 3)
 	for i := 0; i < nh; i++ {
+		if blow {
+			sc.Hays = append(sc.Hays, hex.EncodeToString(genHaystack(hr, sc.Pattern, re, patternOnlyAlphabet(alpha), pick(hr, []int{3, 4, 4}))))
+			continue
+		}
 		sc.Hays = append(sc.Hays, hex.EncodeToString(genHaystack(hr, sc.Pattern, re, alpha, pick(hr, []int{1, 2, 2, 3, 3}))))
 	}
 	or := r.fork(4)
